@@ -282,10 +282,10 @@ func validFloat(s string) bool { _, e := strconv.ParseFloat(s, 64); return e == 
 func runC14(c *core.Ctx) {
 	const thm = "C14_* (props/C14.v); model op vars = Ops.dump_vars_with"
 	c.ReplayKnown()
-	nRandom := 15000
+	nRandom := 100000
 	depth := 2
 	if !c.Quick {
-		nRandom, depth = 300000, 3
+		nRandom, depth = 1500000, 3
 	}
 	s, err := loadImpl(varsSchema)
 	if err != nil {
